@@ -374,3 +374,107 @@ Proof.
     { rewrite rev_app_distr, rev_involutive, EoD. destruct R; [reflexivity|]. rewrite rev_involutive. reflexivity. }
     rewrite Erev. destruct Htl as [-> | ->]; rewrite <- ?app_assoc; rewrite ?app_nil_r; reflexivity.
 Qed.
+
+(* ---- the tail rules on the text after the second pass ------------------------------------------------ *)
+Lemma ftxt_keep1 : forall A y, y <> SEP -> (forall A' e, A = A' ++ [e] -> ~ (e = SEP /\ y = DOT)) ->
+  ftxt (A ++ [y]) = A ++ [y].
+Proof.
+  intros A y Hy Hc. unfold ftxt. rewrite rev_app_distr. cbn [rev app].
+  destruct (rev A) as [|e t'] eqn:E; [reflexivity|].
+  assert (EA : A = rev t' ++ [e]) by (rewrite <- (rev_involutive A), E; reflexivity).
+  destruct ((e =? SEP) && (y =? DOT)) eqn:R1.
+  - exfalso. apply (Hc (rev t') e EA). lia.
+  - destruct t' as [|f t'']; [reflexivity|]. replace (y =? SEP) with false by lia. rewrite andb_false_r. reflexivity.
+Qed.
+
+Lemma ftxt_keep_sep : forall A y, y <> SEP -> (forall A' f, A = A' ++ [f] -> ~ (f = DOT /\ y = DOT)) ->
+  ftxt (A ++ [y; SEP]) = A ++ [y; SEP].
+Proof.
+  intros A y Hy Hc. unfold ftxt. rewrite rev_app_distr. cbn [rev app].
+  replace (y =? SEP) with false by lia. cbn [andb].
+  destruct (rev A) as [|f t'] eqn:E; [reflexivity|].
+  assert (EA : A = rev t' ++ [f]) by (rewrite <- (rev_involutive A), E; reflexivity).
+  destruct ((f =? DOT) && (y =? DOT)) eqn:R2.
+  - exfalso. apply (Hc (rev t') f EA). lia.
+  - reflexivity.
+Qed.
+
+Lemma ftxt_dd_sep : forall A, ftxt (A ++ [DOT; DOT; SEP]) = A ++ [DOT; DOT].
+Proof.
+  intros A. unfold ftxt. rewrite rev_app_distr. cbn [rev app].
+  change ((DOT =? SEP) && (SEP =? DOT)) with false. cbv iota.
+  change ((DOT =? DOT) && (DOT =? DOT) && (SEP =? SEP)) with true. cbv iota.
+  cbn [rev]. rewrite rev_involutive, <- app_assoc. reflexivity.
+Qed.
+
+Lemma ends_dotdot_snoc2 : forall l, ends_dotdot (l ++ [DOT; DOT]) = true.
+Proof.
+  induction l as [|a l IH]; [reflexivity|]. cbn [app]. destruct l as [|b l'].
+  - reflexivity.
+  - destruct l' as [|c l'']; [reflexivity|].
+    change (ends_dotdot (a :: (b :: c :: l'') ++ [DOT; DOT])) with (ends_dotdot ((b :: c :: l'') ++ [DOT; DOT])). exact IH.
+Qed.
+
+Lemma name_single : forall y, nm [y] -> y <> DOT.
+Proof.
+  intros y (_ & H) ->. discriminate.
+Qed.
+
+Lemma final_text : forall k D N tl, (k = 0 \/ k = 1) -> allDD D -> allnm N ->
+  Forall (fun n => ends_dotdot n = false) N -> (tl = [] \/ tl = [[]]) -> (k = 0 \/ D = []) ->
+  ftxt (TX k (D ++ N ++ tl)) = render (k =? 1) (normal_elems (k =? 1) (D ++ N ++ tl)).
+Proof.
+  intros k D N tl Hk HD HN HE Htl HkD. rewrite machine_dn by assumption.
+  destruct N as [|n0 N0].
+  - (* no names *)
+    cbn [app]. destruct D as [|d0 D0].
+    + cbn [app]. assert (ET : TX k tl = root_acc k).
+      { unfold TX. destruct Htl as [-> | ->]; cbn; apply app_nil_r. }
+      rewrite ET. destruct Hk as [-> | ->]; reflexivity.
+    + destruct HkD as [-> | A]; [|discriminate]. change (0 =? 1) with false. cbv iota.
+      destruct (exists_last (l := d0 :: D0) ltac:(discriminate)) as (D' & d & ED). rewrite ED in *.
+      assert (d = DD) as -> by (apply Forall_app in HD as [_ A]; inversion A; assumption).
+      destruct (D' ++ [DD]) eqn:E0; [destruct D'; discriminate|]. rewrite <- E0.
+      unfold TX, render. change (root_acc 0) with (@nil Z). cbn [app].
+      destruct Htl as [-> | ->].
+      * rewrite app_nil_r, join_snoc. change DD with ([DOT] ++ [DOT]). rewrite app_assoc.
+        apply ftxt_keep1; [discriminate|]. intros A' e' EA. apply app_inj_tail in EA as [_ <-]. intros [A _]. discriminate.
+      * rewrite join_snoc, app_nil_r, body_snoc. change (DD ++ [SEP]) with [DOT; DOT; SEP].
+        rewrite ftxt_dd_sep. rewrite join_snoc. reflexivity.
+  - (* some names: the text is already final *)
+    assert (ER : (if k =? 1 then [] else D) = D).
+    { destruct HkD as [-> | ->]; [reflexivity|destruct (k =? 1); reflexivity]. }
+    rewrite ER.
+    assert (EK : render (k =? 1) (D ++ (n0 :: N0) ++ tl) = TX k (D ++ (n0 :: N0) ++ tl)).
+    { unfold render, TX. destruct Hk as [-> | ->]; reflexivity. }
+    rewrite EK.
+    destruct (exists_last (l := n0 :: N0) ltac:(discriminate)) as (N' & n & EN). rewrite EN in *.
+    assert (Hn : nm n) by (apply Forall_app in HN as [_ A]; inversion A; assumption).
+    assert (Hen : ends_dotdot n = false) by (apply Forall_app in HE as [_ A]; inversion A; assumption).
+    destruct Hn as ((Hs & Hz & Hne) & Hin).
+    destruct (last_not_sep n Hs Hne) as (n' & y & En & Hy).
+    destruct Htl as [-> | ->].
+    + rewrite app_nil_r. unfold TX. rewrite app_assoc, join_snoc. rewrite En. rewrite !app_assoc.
+      apply ftxt_keep1; [exact Hy|]. intros A' e EA [He Hyd]. subst e y.
+      destruct n' as [|c n''] using rev_ind.
+      * apply (name_single DOT); [|reflexivity]. cbn [app] in En. rewrite <- En. repeat split; assumption.
+      * clear IHn''. rewrite !app_assoc in EA. apply app_inj_tail in EA as [_ EA]. subst c.
+        unfold sepfree in Hs. rewrite En in Hs. rewrite !Forall_app in Hs. destruct Hs as [[_ Hs] _].
+        inversion Hs; subst. congruence.
+    + unfold TX. rewrite (app_assoc D), join_snoc, app_nil_r. rewrite (app_assoc D N' [n]), body_snoc. rewrite En.
+      replace (root_acc k ++ body (D ++ N') ++ (n' ++ [y]) ++ [SEP])
+        with ((root_acc k ++ body (D ++ N') ++ n') ++ [y; SEP]) by (rewrite <- !app_assoc; reflexivity).
+      apply ftxt_keep_sep; [exact Hy|]. intros A' f EA [Hf Hyd]. subst f y.
+      destruct n' as [|c n''] using rev_ind.
+      * apply (name_single DOT); [|reflexivity]. cbn [app] in En. rewrite <- En. repeat split; assumption.
+      * clear IHn''. rewrite !app_assoc in EA. apply app_inj_tail in EA as [_ EA]. subst c.
+        rewrite En in Hen. rewrite <- app_assoc in Hen. cbn [app] in Hen. rewrite ends_dotdot_snoc2 in Hen. discriminate.
+Qed.
+
+Lemma final_text_root_dd : forall d D N tl, allDD (d :: D) -> allnm N -> (tl = [] \/ tl = [[]]) ->
+  SEP :: join_elems (N ++ tl) = render true (normal_elems true ((d :: D) ++ N ++ tl)).
+Proof.
+  intros d D N tl HD HN Htl. rewrite machine_dn by assumption. destruct N as [|n0 N0].
+  - destruct Htl as [-> | ->]; reflexivity.
+  - reflexivity.
+Qed.
